@@ -266,6 +266,10 @@ def check_channel(ctx, case, segs, mode, ch, Rimg, R, n, bounds, tkind, rng, cut
                 if C.img_equal(C.image(full), want_) and isinstance(full, np.ndarray) and full.dtype.kind in 'iuf' and full.flags.writeable:
                     full[...] = 0
                     ctx.count('full_reads_overwritten_by_caller')
+                    for i_ in sorted({lo_, hi_ - 1, n - 1, 0}):
+                        if scalar_image(ch[i_]) != scalar_image(R[i_]):
+                            ctx.violation('index/lazy/returns-what-the-caller-wrote-into-an-earlier-result', info(index=i_))
+                            break
         except Exception as ex:
             ctx.violation('window/lazy/full-read-raises/%s' % util.exc_key(ex), info(exc=util.exc_detail(ex)))
     # ---- windows
